@@ -3,6 +3,7 @@
 package main
 
 import (
+	"bytes"
 	"context"
 	"errors"
 	"flag"
@@ -13,6 +14,7 @@ import (
 	"strconv"
 	"strings"
 	"sync"
+	"sync/atomic"
 	"time"
 
 	"github.com/gotd/td/bin"
@@ -31,21 +33,24 @@ type rec struct {
 
 func (r *rec) emit(m tr.M) { r.mu.Lock(); r.w.Emit(m); r.mu.Unlock() }
 
+// marker is the payload the driver sends over the returned connection to identify it;
+// transport handshake headers written by concurrently completing (late) dials never contain it.
+var marker = []byte("VERIFMRK")
+
 type fakeNet struct {
-	k      int
-	w      *world
-	r      *rec
-	once   sync.Once
-	closed chan struct{}
+	k       int
+	w       *world
+	r       *rec
+	once    sync.Once
+	closed  chan struct{}
+	sawMark atomic.Bool
 }
 
 func (f *fakeNet) Read(p []byte) (int, error) { <-f.closed; return 0, net.ErrClosed }
 func (f *fakeNet) Write(p []byte) (int, error) {
-	f.w.mmu.Lock()
-	if f.w.marking {
-		f.w.marked = f.k
+	if bytes.Contains(p, marker) {
+		f.sawMark.Store(true)
 	}
-	f.w.mmu.Unlock()
 	return len(p), nil
 }
 func (f *fakeNet) Close() error {
@@ -61,13 +66,12 @@ func (f *fakeNet) SetWriteDeadline(t time.Time) error { return nil }
 type outcome struct{ ok bool }
 
 type world struct {
-	mmu     sync.Mutex
-	marking bool
-	marked  int
-	r       *rec
-	k       int
-	gates   []chan outcome
-	ret     chan struct{}
+	mmu   sync.Mutex
+	fakes []*fakeNet
+	r     *rec
+	k     int
+	gates []chan outcome
+	ret   chan struct{}
 }
 
 func newWorld(r *rec, k int) *world {
@@ -88,8 +92,12 @@ func (w *world) dial(ctx context.Context, network, addr string) (net.Conn, error
 		w.r.emit(tr.M{"ev": "DialFailed", "k": k})
 		return nil, errors.New("dial failed " + addr)
 	}
+	f := &fakeNet{k: k, w: w, r: w.r, closed: make(chan struct{})}
+	w.mmu.Lock()
+	w.fakes = append(w.fakes, f)
+	w.mmu.Unlock()
 	w.r.emit(tr.M{"ev": "Established", "k": k})
-	return &fakeNet{k: k, w: w, r: w.r, closed: make(chan struct{})}, nil
+	return f, nil
 }
 
 func (w *world) list() dcs.List {
@@ -107,18 +115,24 @@ func (w *world) primary(ctx context.Context) {
 		w.r.emit(tr.M{"ev": "Returned", "k": 0, "err": err.Error()})
 		return
 	}
-	// identify the returned connection: the fake that sees the marker write
-	w.mmu.Lock()
-	w.marking, w.marked = true, -2
-	w.mmu.Unlock()
-	sctx, scancel := context.WithTimeout(context.Background(), time.Second)
-	_ = c.Send(sctx, &bin.Buffer{Buf: make([]byte, 8)})
+	// identify the returned connection: the one fake that sees the marker payload
+	sctx, scancel := context.WithTimeout(context.Background(), 30*time.Second)
+	serr := c.Send(sctx, &bin.Buffer{Buf: append([]byte(nil), marker...)})
 	scancel()
+	var seen []int
 	w.mmu.Lock()
-	k := w.marked
-	w.marking = false
+	for _, f := range w.fakes {
+		if f.sawMark.Load() {
+			seen = append(seen, f.k)
+		}
+	}
 	w.mmu.Unlock()
-	w.r.emit(tr.M{"ev": "Returned", "k": k, "err": ""})
+	if len(seen) != 1 {
+		// the harness cannot tell which connection was returned: infrastructure failure, never a verdict
+		fmt.Fprintf(os.Stderr, "dialdrv: cannot identify the returned connection (send err=%v, marker seen by %v)\n", serr, seen)
+		os.Exit(3)
+	}
+	w.r.emit(tr.M{"ev": "Returned", "k": seen[0], "err": ""})
 }
 
 func replay(r *rec, trace int, c tr.M) {
@@ -179,6 +193,11 @@ func replay(r *rec, trace int, c tr.M) {
 
 func free(r *rec, trace int, rng *rand.Rand) {
 	k := 2 + rng.Intn(4)
+	// free running: no gate parks; the scheduler is only used to detect quiescence of the dial goroutines
+	s := sched.New()
+	s.PassThrough = true
+	s.Watch = []string{"dcs.plain"}
+	defer s.Close()
 	r.emit(tr.M{"ev": "reset", "trace": trace, "k": k})
 	w := newWorld(r, k)
 	ctx, cancel := context.WithCancel(context.Background())
@@ -200,11 +219,14 @@ func free(r *rec, trace int, rng *rand.Rand) {
 	for i := 0; i < k; i++ {
 		select {
 		case <-w.ret:
-		case <-time.After(5 * time.Second):
+		case <-time.After(60 * time.Second):
+			fmt.Fprintln(os.Stderr, "dialdrv: a fake dial did not return")
+			os.Exit(3)
 		}
 	}
-	// the losing goroutines close their connections shortly after; wait for the events to settle
-	time.Sleep(3 * time.Millisecond)
+	// the losing goroutines close their connections after the race is decided: wait until every
+	// goroutine of dcs.plain has finished or is blocked for good (no wall-clock guess)
+	s.Settle()
 	r.emit(tr.M{"ev": "End"})
 }
 
